@@ -142,6 +142,24 @@ def o_primes(bound):
         return None
     return orc
 
+def o_primes_iter(k):
+    """Primes::new().take(k) is the list of the first k primes (independent sieve)"""
+    def orc(ia):
+        N = max(30, 12 * k + 30)
+        while True:
+            sv = bytearray([1]) * (N + 1); sv[0:2] = b'\0\0'
+            for i in range(2, int(N ** 0.5) + 1):
+                if sv[i]: sv[i * i::i] = bytearray(len(sv[i * i::i]))
+            ps = [i for i in range(N + 1) if sv[i]]
+            if len(ps) >= k: break
+            N *= 2
+        if ia.kind != 'ok' or ia.val != ps[:k]:
+            got = ia.val if ia.kind == 'ok' else None
+            bad = next((i for i in range(min(k, len(got))) if got[i] != ps[i]), None) if isinstance(got, list) else None
+            return 'Primes::new().take(%d) is not the first %d primes%s' % (k, k, '' if bad is None else ': element %d is %s, expected %d' % (bad, got[bad], ps[bad]))
+        return None
+    return orc
+
 def is_prime_td(p):
     if p < 2: return False
     d = 2
@@ -227,8 +245,8 @@ def cases(rng, tier):
     B = 400 if not th else 3000
     for bound in list(range(0, B)) + ([5000, 7919, 10007] if th else [1009]):
         out.append(Case('primes', line('primes', bound), oracle=o_primes(bound), nontrivial=bound >= 2, tag='primes'))
-    for k in [0, 1, 2, 10, 100, 300] + ([1000, 2000] if th else []):
-        out.append(Case('primes_iter', line('primes_iter', k), tag='primes_iter'))
+    for k in [0, 1, 2, 10, 100, 300, 700] + ([1000, 2000, 5000] if th else []):
+        out.append(Case('primes_iter', line('primes_iter', k), oracle=o_primes_iter(k), nontrivial=k >= 1, tag='primes_iter'))
     # trial-division factorize (lemma trial_factorize_spec in Refine/TrialDivProofs.v, consumed by C01)
     for n in range(-2, 1200 if not th else 20000):
         out.append(Case('trial_factorize', line('trial_factorize', n), oracle=o_tf(n), nontrivial=n >= 4, tag='trial-factorize'))
